@@ -94,11 +94,34 @@ class PersistenceLandscaper(BaseEstimator, TransformerMixin):
         """
         # TODO: remove infinities
         _dgm = X[self.hom_deg]
-        if self.start is None:
-            self.start = min(_dgm, key=itemgetter(0))[0]
-        if self.stop is None:
-            self.stop = max(_dgm, key=itemgetter(1))[1]
+        # A grid end is learned from the data unless the user fixed it. A value that an
+        # earlier call of fit() stored is not a user choice: it is learned afresh, so that
+        # refitting on new data does not keep the grid of the first fit.
+        learn_start = self.start is None or self._is_learned("start")
+        learn_stop = self.stop is None or self._is_learned("stop")
+        start = min(_dgm, key=itemgetter(0))[0] if learn_start else self.start
+        stop = max(_dgm, key=itemgetter(1))[1] if learn_stop else self.stop
+        self.start, self.stop = start, stop
+        self._learned = {}
+        if learn_start:
+            self._learned["start"] = start
+        if learn_stop:
+            self._learned["stop"] = stop
         return self
+
+    def _is_learned(self, name):
+        """True if the current value of `name` was stored by fit() rather than given by the user."""
+        learned = getattr(self, "_learned", {})
+        return name in learned and learned[name] == getattr(self, name)
+
+    def get_params(self, deep=True):
+        """Constructor parameters as given by the user: learned grid ends are reported as None,
+        so that sklearn.base.clone() yields an estimator that learns its grid from its own data."""
+        params = super().get_params(deep=deep)
+        for name in ("start", "stop"):
+            if self._is_learned(name):
+                params[name] = None
+        return params
 
     def transform(self, X: np.ndarray, y=None):
         """Construct persistence landscape values.
